@@ -48,9 +48,15 @@ RDF_EXT = {"xml": ".rdf", "pretty-xml": ".rdf", "nt": ".nt", "n3": ".n3", "turtl
 BACKENDS = [("xml", {}), ("xml", {"local_style": True}),
             ("xml", {"custom_template": "<xsl:template match=\"odML\"><p>x</p></xsl:template>"}),
             ("json", {}), ("yaml", {})] + [("rdf", {"rdf_format": f}) for f in RDF_FORMATS]
-DEFECTS = ["none", "warn", "type", "dupid", "dupname"]
-ERROR_DEFECTS = ("type", "dupid", "dupname")
-FAILS = ["none", "rdf_format", "ctrl_name", "ctrl_value", "ctrl_def", "json_obj"]
+DEFECTS = ["none", "warn", "type", "dupid", "dupname",
+           # the same three ways of being invalid, planted deep and across branches
+           "type_deep", "dupid_deep", "dupid_prop", "dupid_prop_deep", "dupname_deep", "dupname_prop"]
+ERROR_DEFECTS = ("type", "dupid", "dupname", "type_deep", "dupid_deep", "dupid_prop",
+                 "dupid_prop_deep", "dupname_deep", "dupname_prop")
+FAILS = ["none", "rdf_format", "ctrl_name", "ctrl_value", "ctrl_def", "json_obj",
+         # text no encoder of a text file can hold: a lone surrogate (what os.fsdecode returns
+         # for undecodable file names); a renderer that lets it through fails in write()
+         "surr_value", "surr_def", "surr_author"]
 PRES = ["absent", "earlier", "dir"]
 ENTRIES = ["odml.save", "odml.save-noext", "ODMLWriter.write_file", "XMLWriter.write_file",
            "RDFWriter.write_file"]
@@ -83,33 +89,114 @@ def grid(tier):
     return cases
 
 
-def build_doc(odml, defect, fail):
+def base_doc(odml, variant):
+    """variant 0: the fixed document; otherwise a seeded random tree (depth <= 4)."""
     doc = odml.Document(author="c07", version="1")
-    s1 = odml.Section(name="s1", type="t", parent=doc)
-    s2 = odml.Section(name="s2", type="t", parent=doc)
-    odml.Property(name="p1", values=[1, 2], parent=s1)
-    odml.Property(name="p2", values="text", parent=s1, definition="def")
-    odml.Property(name="p3", values=["(1;2)"], dtype="2-tuple", parent=s2)
-    if defect == "warn":
-        s1.prop_cardinality = (5, None)
-    elif defect == "type":
-        s2.type = None
-    elif defect == "dupid":
-        dup = s1.clone(keep_id=True)
-        dup.name = "s1copy"
-        doc.append(dup)
-    elif defect == "dupname":
-        clash = odml.Section(name="s1", type="t")
-        list.insert(doc.sections, 0, clash)
-    if fail == "ctrl_name":
-        odml.Property(name="bad\x00name", values=1, parent=s2)
-    elif fail == "ctrl_value":
-        odml.Property(name="pc", values="bad\x1fvalue", parent=s2)
-    elif fail == "ctrl_def":
-        s2.definition = "bad\x00def"
-    elif fail == "json_obj":
-        s2.definition = {1, 2}
+    if not variant:
+        s1 = odml.Section(name="s1", type="t", parent=doc)
+        s2 = odml.Section(name="s2", type="t", parent=doc)
+        odml.Property(name="p1", values=[1, 2], parent=s1)
+        odml.Property(name="p2", values="text", parent=s1, definition="def")
+        odml.Property(name="p3", values=["(1;2)"], dtype="2-tuple", parent=s2)
+        s11 = odml.Section(name="s11", type="t", parent=s1)
+        odml.Property(name="p4", values=[1.5], parent=s11)
+        s111 = odml.Section(name="s111", type="t", parent=s11)
+        odml.Property(name="p5", values=[True], parent=s111)
+        odml.Section(name="s21", type="t", parent=s2)
+        return doc
+    import random
+    rng = random.Random(variant)
+    conts = [(doc, 0)]
+    for i in range(rng.randint(2, 9)):
+        par, depth = rng.choice([c for c in conts if c[1] < 4]) if i >= 2 else conts[0]
+        sec = odml.Section(name="s%d" % i, type=rng.choice(["t", "t/u", "other"]), parent=par)
+        conts.append((sec, depth + 1))
+        for k in range(rng.randint(1 if i < 2 else 0, 2)):
+            odml.Property(name="p%d_%d" % (i, k), parent=sec,
+                          values=rng.choice([[1, 2], "text", [1.5], [True, False], ["a", "b"]]))
     return doc
+
+
+def build_doc(odml, defect, fail, variant=0):
+    import random
+    rng = random.Random(variant * 7919 + 1)
+    doc = base_doc(odml, variant)
+    secs = list(doc.itersections())
+    props = list(doc.iterproperties())
+    deep = [s for s in secs if s.parent is not doc] or secs
+
+    def other_branch(node):
+        """A Section that is neither node, an ancestor nor a descendant of node."""
+        anc = []
+        cur = node
+        while cur is not None and cur is not doc:
+            anc.append(cur)
+            cur = cur.parent
+        out = [s for s in secs if not any(s is a for a in anc) and
+               not any(x is node for x in _ancestors(s, doc))]
+        return out
+
+    if defect == "warn":
+        rng.choice(secs).prop_cardinality = (7, None)
+    elif defect == "type":
+        rng.choice([s for s in secs if s.parent is doc]).type = None
+    elif defect == "type_deep":
+        rng.choice(deep).type = None
+    elif defect == "dupid":
+        src = rng.choice([s for s in secs if s.parent is doc])
+        dup = src.clone(keep_id=True)
+        dup.name = src.name + "copy"
+        doc.append(dup)
+    elif defect == "dupid_deep":
+        # the first holder lies deep inside an earlier branch, the second in another branch
+        src = max(deep, key=lambda s: (len(_ancestors(s, doc)), -secs.index(s)))
+        dest = other_branch(src) or [src.parent]
+        dup = src.clone(keep_id=True, children=False)
+        dup.name = src.name + "copy"
+        rng.choice(dest).append(dup)
+    elif defect in ("dupid_prop", "dupid_prop_deep"):
+        src = rng.choice(props) if defect == "dupid_prop" else \
+            max(props, key=lambda p: len(_ancestors(p.parent, doc)))
+        dup = src.clone(keep_id=True)
+        dup.name = src.name + "copy"
+        dest = other_branch(src.parent) if defect == "dupid_prop_deep" else [src.parent]
+        rng.choice(dest or [src.parent]).append(dup)
+    elif defect == "dupname":
+        tops = [s for s in secs if s.parent is doc]
+        src = rng.choice(tops)
+        list.insert(doc.sections, 0, odml.Section(name=src.name, type=src.type))
+    elif defect == "dupname_deep":
+        src = rng.choice(deep)
+        clash = odml.Section(name=src.name, type=src.type)
+        list.append(src.parent.sections, clash)
+    elif defect == "dupname_prop":
+        src = rng.choice(props)
+        list.append(src.parent.properties, odml.Property(name=src.name, values=[3]))
+    host = rng.choice(secs)
+    if fail == "ctrl_name":
+        odml.Property(name="bad\x00name", values=1, parent=host)
+    elif fail == "ctrl_value":
+        odml.Property(name="pc", values="bad\x1fvalue", parent=host)
+    elif fail == "ctrl_def":
+        host.definition = "bad\x00def"
+    elif fail == "json_obj":
+        host.definition = {1, 2}
+    elif fail == "surr_value":
+        odml.Property(name="ps", values="file\udcff.dat", parent=host)
+    elif fail == "surr_def":
+        host.definition = "half a pair \ud83d"
+    elif fail == "surr_author":
+        doc.author = "A\udcffB"
+    return doc
+
+
+def _ancestors(node, doc):
+    out = []
+    cur = node.parent
+    while cur is not None and cur is not doc:
+        out.append(cur)
+        cur = cur.parent
+    return out
 
 
 def target_of(entry, backend, kwargs, name):
@@ -147,7 +234,7 @@ def run_case(case):
             kwargs = dict(cell["kwargs"])
             if cell["fail"] == "rdf_format":
                 kwargs["rdf_format"] = "bogus-format"
-            doc = build_doc(odml, cell["defect"], cell["fail"])
+            doc = build_doc(odml, cell["defect"], cell["fail"], cell.get("variant", 0))
             fname, may_write = target_of(cell["entry"], cell["backend"], cell["kwargs"], cell["name"])
             if cell["fail"] == "rdf_format" and cell["entry"] != "odml.save-noext":
                 may_write = [fname]
@@ -171,6 +258,7 @@ def run_case(case):
                     os.makedirs(wp, exist_ok=True)
                 elif cell["pre"] == "previous":
                     pass      # whatever the session left there
+            target_is_dir = any(os.path.isdir(wp) for wp in wpaths)
             before = fsbox.snapshot(box)
             env.capture.take()
             labels = ["defect:" + cell["defect"], "fail:" + cell["fail"], "pre:" + cell["pre"]]
@@ -210,6 +298,12 @@ def run_case(case):
                     vio = ("save.refuses-invalid", "%s of a document with defect %r raised %s, not "
                            "ParserException: %s" % (cell["entry"], cell["defect"], outcome[1],
                                                     outcome[2]))
+                elif cell["defect"] == "warn" and cell["fail"] == "none" and not target_is_dir \
+                        and not (fault is not None and fault.fired):
+                    # nothing but the warning could be the reason: "a document with warnings
+                    # only is written"
+                    vio = ("save.warns-and-writes", "%s refused a document that has warnings only: "
+                           "%s: %s" % (cell["entry"], outcome[1], outcome[2]))
             else:
                 if validating and cell["defect"] in ERROR_DEFECTS:
                     vio = ("save.refuses-invalid", "%s wrote a document with defect %r (%s)" %
@@ -254,6 +348,8 @@ def explore(run_seed, tier, known=None):
         cell = {"defect": rng.choice(DEFECTS + ["none"]), "fail": fail, "backend": backend,
                 "kwargs": kwargs, "pre": rng.choice(["previous", "previous", "absent", "earlier", "dir"]),
                 "entry": entry, "name": rng.choice(["f0", "f1"])}
+        if rng.random() < 0.7:
+            cell["variant"] = rng.randrange(1, 1000000)
         if rng.random() < 0.2:
             cell["open_fault"] = {"k": 1, "errno": rng.choice(["ENOSPC", "EACCES", "EISDIR"])}
         steps.append(cell)
